@@ -48,7 +48,7 @@ def ENCODED():
             g.CommandStreamEmitter.cmd_wait, g.CommandStreamEmitter.cmd_do_operation, rs.RangeSet.intersects,
             rs.RangeSet.__or__, rs.RangeSet.__ior__, rs.MemoryRangeSet.intersects, rs.MemoryRangeSet.__ior__,
             rs.MemoryAccessSet.add, rs.MemoryAccessSet.conflicts, u.get_dma_memory_accesses, u.memory_range_set,
-            u.calc_blockdep, u.get_offset_block_coords, u.coords_intersect, u.intersects,
+            u.calc_blockdep, u.get_offset_block_coords, u.get_address_ranges_for_area, u.get_h_ranges, u.get_address_range, u.coords_intersect, u.intersects,
             __import__("ethosu.vela.architecture_features", fromlist=["x"]).ArchitectureFeatures.get_ifm_block_size, u.get_op_memory_accesses]
 
 
